@@ -1,0 +1,159 @@
+//go:build verif
+
+package goja
+
+import (
+	"fmt"
+	"strings"
+)
+
+// Verification hooks (build tag "verif"). Read-only accessors of internal
+// state plus two hook points; no behaviour of the engine is changed.
+
+type verifVMExt struct {
+	step  func(r *Runtime)
+	count uint64
+}
+
+func verifStep(vm *vm) {
+	vm.verif.count++
+	if h := vm.verif.step; h != nil {
+		h(vm.r)
+	}
+}
+
+// VerifPointHook is called at named points inside lazily initialised shared
+// values (importedString.scan). obj identifies the shared value.
+var VerifPointHook func(name string, obj interface{})
+
+func verifPoint(name string, obj interface{}) {
+	if h := VerifPointHook; h != nil {
+		h(name, obj)
+	}
+}
+
+// VerifSetStepHook installs a function called before every VM instruction
+// (before the interrupt flag is polled).
+func VerifSetStepHook(r *Runtime, h func(r *Runtime)) { r.vm.verif.step = h }
+
+// VerifStepCount returns the number of VM instructions executed so far.
+func VerifStepCount(r *Runtime) uint64 { return r.vm.verif.count }
+
+type VerifIdleState struct {
+	SP, SB, PC, Args                         int
+	PrgNil                                   bool
+	CallStack, TryStack, IterStack, RefStack int
+	StashGlobal, PrivEnvNil                  bool
+	Jobs                                     int
+	Interrupted                              bool
+	ToStringStack                            int
+	AsyncRunnerNil, NewTargetNil             bool
+}
+
+func VerifIdle(r *Runtime) VerifIdleState {
+	vm := r.vm
+	return VerifIdleState{
+		SP: vm.sp, SB: vm.sb, PC: vm.pc, Args: vm.args,
+		PrgNil:    vm.prg == nil,
+		CallStack: len(vm.callStack), TryStack: len(vm.tryStack),
+		IterStack: len(vm.iterStack), RefStack: len(vm.refStack),
+		StashGlobal:    vm.stash == nil || vm.stash == &r.global.stash,
+		PrivEnvNil:     vm.privEnv == nil,
+		Jobs:           len(r.jobQueue),
+		Interrupted:    vm.interrupted != 0,
+		ToStringStack:  len(r.toStringStack),
+		AsyncRunnerNil: vm.curAsyncRunner == nil,
+		NewTargetNil:   vm.newTarget == nil,
+	}
+}
+
+func (s VerifIdleState) String() string {
+	return fmt.Sprintf("%+v", struct{ VerifIdleState }{s}.VerifIdleState)
+}
+
+// VerifRepr names the internal representation of a primitive value.
+func VerifRepr(v Value) string {
+	switch v := v.(type) {
+	case nil:
+		return "nil"
+	case valueInt:
+		return "int"
+	case valueFloat:
+		return "float"
+	case asciiString:
+		return "ascii"
+	case unicodeString:
+		return "utf16"
+	case *importedString:
+		if !v.scanned {
+			return "imported:unscanned"
+		}
+		if v.u != nil {
+			return "imported:utf16"
+		}
+		return "imported:ascii"
+	case valueBool:
+		return "bool"
+	case *valueBigInt:
+		return "bigint"
+	case *Symbol:
+		return "symbol"
+	case *Object:
+		return "object"
+	case valueNull:
+		return "null"
+	case valueUndefined:
+		return "undefined"
+	}
+	return fmt.Sprintf("%T", v)
+}
+
+// VerifUnits returns the UTF-16 code units of a string value as stored.
+func VerifUnits(v Value) []uint16 {
+	s, ok := v.(String)
+	if !ok {
+		return nil
+	}
+	n := s.Length()
+	res := make([]uint16, n)
+	for i := 0; i < n; i++ {
+		res[i] = s.CharAt(i)
+	}
+	return res
+}
+
+type VerifArrayInfo struct {
+	Kind                     string // "dense", "sparse", or the Go type of the implementation
+	Stored                   int    // len(values) resp. len(items)
+	ObjCount, PropValueCount int
+	Length                   uint32
+}
+
+func VerifArray(o *Object) VerifArrayInfo {
+	switch a := o.self.(type) {
+	case *arrayObject:
+		return VerifArrayInfo{"dense", len(a.values), a.objCount, a.propValueCount, a.length}
+	case *sparseArrayObject:
+		return VerifArrayInfo{"sparse", len(a.items), 0, a.propValueCount, a.length}
+	}
+	return VerifArrayInfo{Kind: fmt.Sprintf("%T", o.self)}
+}
+
+// VerifImpl returns the Go type name of the object's implementation.
+func VerifImpl(o *Object) string { return fmt.Sprintf("%T", o.self) }
+
+// VerifProgramDump renders the compiled code (nested functions included).
+func VerifProgramDump(p *Program) string {
+	var sb strings.Builder
+	p.dumpCode(func(format string, args ...interface{}) {
+		fmt.Fprintf(&sb, format, args...)
+		sb.WriteByte('\n')
+	})
+	return sb.String()
+}
+
+// VerifProgramRoot exposes the internals reachable from a Program for deep hashing.
+func VerifProgramRoot(p *Program) interface{} { return p }
+
+// VerifRuntimeOf returns the Runtime an object belongs to.
+func VerifRuntimeOf(o *Object) *Runtime { return o.runtime }
